@@ -274,7 +274,8 @@ PROPS = {
              "need": ["Mint/overflow", "Transfer/overflow", "TransferFrom/ok"],
              "control": zero_amount_control, "quick_edges": 10000, "max_len": 40},
             {"kind": "graph", "spec": "MC_C12", "cfg": "MC_C12_roles", "module": "Token", "evkinds": TOKEN_EVENTS,
-             "need": ["MintFrom/ok", "MintFrom/is_minter", "Mint/is_minter", "AddMinter/ok", "RemoveMinter/ok", "TransferOwnership/ok"],
+             "need": ["MintFrom/ok", "MintFrom/is_minter", "Mint/is_minter", "AddMinter/ok", "RemoveMinter/ok", "TransferOwnership/ok",
+                      "Clawback/unimplemented", "SetAuthorized/unimplemented", "Authorized/unimplemented"],
              "control": zero_amount_control},
             TOKEN_TRACE,
             # unbounded histories and unbounded amounts, on the design: non-negativity and supply = minted - burned
